@@ -10,6 +10,8 @@ package account
 // The registry: the table lookups Get/GetPath (locks, the multimap tree, strings.Split/Join) are
 // trusted to hand out valid accounts and to touch only the registry's index and tree - in particular
 // NOT the swaps cache. Everything built on top of them is verified against these two contracts.
+// GetPath needs a non-empty path: for the empty path the tree lookup finds the root, whose Value is nil,
+// and (nil, nil) comes back - callers are checked never to ask for it.
 //@ func NewRegistry
 //@   trusted
 //@   modifies nothing
@@ -22,6 +24,7 @@ package account
 //
 //@ func (*Registry).GetPath
 //@   trusted
+//@   requires len(segments) >= 1
 //@   modifies as.index[*]
 //@   ensures result.1 == nil ==> validAccount(result.0) && len(result.0.segments) >= 1 && cap(result.0.segments) == len(result.0.segments)
 //
@@ -39,7 +42,7 @@ package account
 //
 //@ func (*Registry).MustGetPath
 //@   panics
-//@   requires as != nil
+//@   requires as != nil && len(ss) >= 1
 //@   modifies as.index[*]
 //@   ensures validAccount(result) && len(result.segments) >= 1 && cap(result.segments) == len(result.segments)
 //
